@@ -82,6 +82,8 @@ def handle (op : String) (args : List String) : Option String :=
       | some n => hex (fmtHex Gen.PktLine.fmtWidth (n + Gen.PktLine.fmtHdr)) | none => "bad-arg"
   | "c19.pktline", [p] => some <| match pkt? p with
       | some p => hex (pktLine p) | none => "bad-arg"
+  | "c19.pktseq", ps => some <| match ps.mapM pkt? with
+      | some ps => hex (pktSeq ps) | none => "bad-arg"
   | "c19.parselen", [h] => some <| match bytes? h with
       | some s => (match parseLen s with | .ok n => s!"ok {n}" | .protocol => "P" | .other => "O")
       | none => "bad-arg"
